@@ -48,11 +48,41 @@ type Path struct {
 	Ret       *ssa.Return       // nil: path ends in panic / cut
 	Cut       bool              // stopped at revisit bound
 	pred      map[*ssa.BasicBlock]*ssa.BasicBlock
+	// calls of new single-use helpers whose body was walked as part of this path, with the return taken
+	callRet map[*ssa.Call]*ssa.Return
 }
 
 // Resolve follows phis according to the path (the incoming edge actually taken).
 func (p *Path) Resolve(v ssa.Value) ssa.Value {
 	for i := 0; i < 20; i++ {
+		// results and parameters of a helper that was walked inline
+		switch x := v.(type) {
+		case *ssa.Call:
+			if r, ok := p.callRet[x]; ok && len(r.Results) == 1 {
+				v = resolveLocal(r.Results[0])
+				continue
+			}
+		case *ssa.Extract:
+			if call, isCall := x.Tuple.(*ssa.Call); isCall {
+				if r, ok := p.callRet[call]; ok && x.Index < len(r.Results) {
+					v = resolveLocal(r.Results[x.Index])
+					continue
+				}
+			}
+		case *ssa.Parameter:
+			if theCtx != nil {
+				if cs := theCtx.soleCall(x.Parent()); cs != nil && !cs.Common().IsInvoke() {
+					if call, isCall := cs.(*ssa.Call); isCall {
+						if _, inl := p.callRet[call]; inl || p.inHelper(x.Parent()) {
+							if k := paramIndex(x); k >= 0 && k < len(call.Call.Args) {
+								v = call.Call.Args[k]
+								continue
+							}
+						}
+					}
+				}
+			}
+		}
 		phi, ok := v.(*ssa.Phi)
 		if !ok {
 			return v
@@ -68,14 +98,21 @@ func (p *Path) Resolve(v ssa.Value) ssa.Value {
 		if idx <= 0 {
 			return v
 		}
-		pred := p.Blocks[idx-1]
+		// the predecessor taken: the nearest earlier block of the same function (helper bodies walked inline lie between)
 		found := false
-		for k, pb := range phi.Block().Preds {
-			if pb == pred {
-				v = phi.Edges[k]
-				found = true
-				break
+		for j := idx - 1; j >= 0 && !found; j-- {
+			pred := p.Blocks[j]
+			if pred.Parent() != phi.Block().Parent() {
+				continue
 			}
+			for k, pb := range phi.Block().Preds {
+				if pb == pred {
+					v = phi.Edges[k]
+					found = true
+					break
+				}
+			}
+			break
 		}
 		if !found {
 			return v
@@ -87,42 +124,79 @@ func (p *Path) Resolve(v ssa.Value) ssa.Value {
 // Oracle decides a branch condition on the current partial path; Unknown forks both ways.
 type Oracle func(p *Path, cond ssa.Value) Tri
 
-// Paths enumerates paths of f under the oracle. limit bounds the number of paths (0 = 4096).
+// Paths enumerates paths of f under the oracle. limit bounds the number of paths (0 = 4096). The body of a new
+// single-use helper (terms.go) called on the way is walked as part of the path (two levels at most): extracting part of
+// a function into a helper does not hide its branches from the enumeration.
 func (c *Ctx) Paths(f *ssa.Function, oracle Oracle, limit int) (out []*Path, complete bool) {
 	if limit == 0 {
 		limit = 4096
 	}
 	complete = true
-	var walk func(p *Path, b *ssa.BasicBlock)
-	walk = func(p *Path, b *ssa.BasicBlock) {
+	type frame struct {
+		b    *ssa.BasicBlock
+		idx  int
+		call *ssa.Call
+	}
+	copyPath := func(p *Path) *Path {
+		q := &Path{Blocks: append([]*ssa.BasicBlock{}, p.Blocks...), Decisions: append([]Decision{}, p.Decisions...), Instrs: append([]ssa.Instruction{}, p.Instrs...)}
+		if len(p.callRet) > 0 {
+			q.callRet = map[*ssa.Call]*ssa.Return{}
+			for k, v := range p.callRet {
+				q.callRet[k] = v
+			}
+		}
+		return q
+	}
+	var walk func(p *Path, b *ssa.BasicBlock, idx int, stack []frame)
+	walk = func(p *Path, b *ssa.BasicBlock, idx int, stack []frame) {
 		if len(out) >= limit {
 			complete = false
 			return
 		}
-		n := 0
-		for _, x := range p.Blocks {
-			if x == b {
-				n++
+		q := copyPath(p)
+		if idx == 0 {
+			n := 0
+			for _, x := range p.Blocks {
+				if x == b {
+					n++
+				}
+			}
+			if n >= 2 {
+				q.Cut = true
+				out = append(out, q)
+				return
+			}
+			q.Blocks = append(q.Blocks, b)
+		}
+		for i := idx; i < len(b.Instrs)-1; i++ {
+			in := b.Instrs[i]
+			q.Instrs = append(q.Instrs, in)
+			if call, ok := in.(*ssa.Call); ok && len(stack) < 2 {
+				if g := call.Call.StaticCallee(); g != nil && c.isNew(g) && c.soleCall(g) == ssa.CallInstruction(call) && g != f {
+					walk(q, g.Blocks[0], 0, append(append([]frame{}, stack...), frame{b, i + 1, call}))
+					return
+				}
 			}
 		}
-		if n >= 2 {
-			q := *p
-			q.Cut = true
-			out = append(out, &q)
-			return
-		}
-		q := &Path{Blocks: append(append([]*ssa.BasicBlock{}, p.Blocks...), b),
-			Decisions: append([]Decision{}, p.Decisions...),
-			Instrs:    append(append([]ssa.Instruction{}, p.Instrs...), b.Instrs...)}
 		last := b.Instrs[len(b.Instrs)-1]
+		q.Instrs = append(q.Instrs, last)
 		switch t := last.(type) {
 		case *ssa.Return:
+			if len(stack) > 0 {
+				fr := stack[len(stack)-1]
+				if q.callRet == nil {
+					q.callRet = map[*ssa.Call]*ssa.Return{}
+				}
+				q.callRet[fr.call] = t
+				walk(q, fr.b, fr.idx, stack[:len(stack)-1])
+				return
+			}
 			q.Ret = t
 			out = append(out, q)
 		case *ssa.Panic:
 			out = append(out, q)
 		case *ssa.Jump:
-			walk(q, b.Succs[0])
+			walk(q, b.Succs[0], 0, stack)
 		case *ssa.If:
 			tri := Unknown
 			if oracle != nil {
@@ -135,15 +209,26 @@ func (c *Ctx) Paths(f *ssa.Function, oracle Oracle, limit int) (out []*Path, com
 				if tri == True && !truth || tri == False && truth {
 					continue
 				}
-				r := &Path{Blocks: q.Blocks, Decisions: append(append([]Decision{}, q.Decisions...), Decision{If: t, Term: c.condTerm(q, t.Cond, truth), Truth: truth, Forced: tri != Unknown}), Instrs: q.Instrs}
-				walk(r, b.Succs[i])
+				r := copyPath(q)
+				r.Decisions = append(r.Decisions, Decision{If: t, Term: c.condTerm(q, t.Cond, truth), Truth: truth, Forced: tri != Unknown})
+				walk(r, b.Succs[i], 0, stack)
 			}
 		default:
 			out = append(out, q)
 		}
 	}
-	walk(&Path{}, f.Blocks[0])
+	walk(&Path{}, f.Blocks[0], 0, nil)
 	return
+}
+
+// inHelper: the path is currently inside (or has been through) the body of helper g.
+func (p *Path) inHelper(g *ssa.Function) bool {
+	for _, b := range p.Blocks {
+		if b.Parent() == g {
+			return true
+		}
+	}
+	return false
 }
 
 // constCond evaluates conditions that are constants after phi resolution along the path.
